@@ -1089,3 +1089,80 @@ def _str_more(m, args, ci):
     if meth == 'contains':
         return by in bx
     return bx.lower() == by.lower()
+
+# =======================================================================================================
+# batch 4 (benign sweep 3)
+# =======================================================================================================
+@I.add(*_o('unzip'))
+def _opt_unzip(m, args, ci):
+    o = _opt(args[0])
+    if o.variant == 'None':
+        return tuple_(none(), none())
+    t = o.fields[0]
+    return tuple_(some(t.fields[0]), some(t.fields[1]))
+
+def _default_of(m, tyname):
+    t = type_head(tyname or '')
+    last = last_seg(t)
+    if last in sym.INT_TYPES:
+        return 0
+    if last == 'bool':
+        return False
+    if last == 'Duration':
+        return lib_std.dur(0)
+    if last == 'String':
+        return Seq([], 'str')
+    if last == 'Vec':
+        return Seq([], 'vec')
+    if last == 'Option':
+        return none()
+    if last in ('()',):
+        return unit()
+    return None
+
+@I.add(*(_o('unwrap_or_default') + _r('unwrap_or_default')))
+def _unwrap_or_default_any(m, args, ci):
+    v = deref_val(args[0]) if isinstance(args[0], Ref) else args[0]
+    if v.variant in ('Some', 'Ok'):
+        return v.fields[0]
+    g = ci.generic_args()
+    d = _default_of(m, g[0]) if g else None
+    if d is None:
+        raise Unsupported('unwrap_or_default of ' + str(g))
+    return d
+
+@I.rx(r'^<%s as (Ord|PartialOrd)>::(cmp|partial_cmp)$|^(std|core)::cmp::(Ord::cmp|PartialOrd::partial_cmp)$' % _INT, prio=1)
+def _int_cmp(m, args, ci):
+    a = deref_val(args[0]) if isinstance(args[0], Ref) else args[0]
+    b = deref_val(args[1]) if isinstance(args[1], Ref) else args[1]
+    if _truth(m, sym.lt(a, b), 'cmp<'):
+        o = 'Less'
+    else:
+        o = 'Equal' if _truth(m, sym.eq(a, b), 'cmp=') else 'Greater'
+    r = Adt('std::cmp::Ordering', o, {})
+    return some(r) if ci.name.endswith('partial_cmp') else r
+
+@I.rx(r'^(std|core)::iter::(once|empty|once_with)$|^(std|core)::iter::sources::(once|empty)::(once|empty)$')
+def _iter_once(m, args, ci):
+    if ci.name.endswith('empty'):
+        return OwnedIter([])
+    if ci.name.endswith('once_with'):
+        return OwnedIter([_call(m, args[0], [])])
+    return OwnedIter([args[0]])
+
+@I.rx(r'(^|::)HashMap::remove_entry$')
+def _hm_remove_entry(m, args, ci):
+    hm = deref_val(args[0])
+    i = hm.find(m, args[1])
+    if i is None:
+        return none()
+    k, cell = hm.entries.pop(i)
+    return some(tuple_(k, cell.v))
+
+@I.rx(r'^<(std::string::)?String as ToOwned>::to_owned$|^<str as ToOwned>::to_owned$|^<\[.*\] as ToOwned>::to_owned$')
+def _to_owned(m, args, ci):
+    s, a, b = seq_of(args[0])
+    kind = 'vec' if ci.name.startswith('<[') else 'str'
+    if s.tag is not None and not s.items:
+        return Seq([], kind, s.tag)
+    return Seq([clone_value(m, x) for x in s.items[a:b]], kind, s.tag)
